@@ -296,7 +296,8 @@ fn cx_fn(ctx: &Ctx, r: &mut Report) {
             } else if rt != want_ret || msig.asyncness.is_some() != is_async {
                 r.fail("return-type", &input, format!("trait method returns `{}`, the function `{}`", rt, want_ret));
             }
-            if msig.unsafety.is_some() != q.contains("unsafe") || msig.constness.is_some() != q.contains("const") || msig.abi.is_some() != q.contains("extern") {
+            // (`const` is not demanded either way: trait methods cannot be const, and no property puts `const fn` in the supported class)
+            if msig.unsafety.is_some() != q.contains("unsafe") || msig.abi.is_some() != q.contains("extern") {
                 r.fail("qualifiers", &input, format!("method signature `{}` does not carry the function's qualifiers `{}`", tt_string(msig), q));
             }
             // the impl
